@@ -15,18 +15,46 @@ def finding_key(req, obs, detail):
     m = re.search(r" min=(.*)$", detail or "")
     if m:
         key = m.group(1)
+        marks = (detail or "").split(" min=")[0]
+        # The known template misreading (finding 2): a `<` operator … a `>` operator directly in front of `(` is read by
+        # expr_p1_call as `name<args>(…)`.  One family, two class keys:
+        known_lt_gt = ("tree-differs[bin:GreaterThan->call] ret (bin GreaterThan (bin LessThan (id a) (id a)) "
+                       "(bin BitwiseAnd (id a) (id a)))")
+        # comma-list variant: the `<` stands in an earlier and the `> (` in a later entry of a call argument list, so the
+        # list `f(a < b, c > (d))` reads back as `f<b, c>(d)`-like: ONE argument (a different argument count)
+        known_lt_gt_list = ("tree-differs[list-length] ret (call (id a) () ((bin LessThan (id a) (id a)) "
+                            "(bin GreaterThan (id a) (bin BitwiseAnd (id a) (id a)))))")
+        family = False
         # `a < a > (X)`: any right operand that is printed in parentheses gives the same misreading
-        # (also when the operand only *starts* with `(`, e.g. `a < a > (++a)++`, where the call ends up below a postfix node)
-        pre = "tree-differs[bin:GreaterThan->call] ret (bin GreaterThan (bin LessThan (id a) (id a)) "
-        # (a cast as right operand also starts with `(`: `a < a > (T)a`; when the would-be argument list does not parse the
+        # (also when the operand only *starts* with `(`, e.g. `a < a > (++a)++`, where the call ends up below a postfix node;
+        # a cast as right operand also starts with `(`: `a < a > (T)a`; when the would-be argument list does not parse the
         # text is rejected instead of regrouped)
         if re.match(r"(tree-differs\[bin:GreaterThan->[^\]]*\]|rejected-by-parser) ret \(bin GreaterThan \(bin LessThan \(id a\) \(id a\)\) ", key):
-            key = pre + "(bin BitwiseAnd (id a) (id a)))"
+            family = True
         # the same misreading in any position (`f(a < b, c > (d))` reads as `f(a<b, c>(d))`): the re-read tree has
         # template arguments although the original has none at all
         eot = re.compile(r"\((?:E|B|T) \(")
         if key.startswith("tree-differs") and " ==> " in (obs or "") and not eot.search(req) and eot.search(obs.split(" ==> ", 1)[1]):
-            key = pre + "(bin BitwiseAnd (id a) (id a)))"
+            family = True
+        # … and inside a tree that has template arguments of its own: the harness marks a failure whose *minimal* tree has
+        # no expression-or-type position although its printed text reads back with one (`a << a < a ? a : a > (a ? a : a)`)
+        if key.startswith("tree-differs") and " reread-invents-template-args" in marks:
+            family = True
+        # … or the text is rejected because the would-be argument list does not parse (`a < a & a > (Foo<a>)a`): the minimal
+        # tree keeps a `<` and a `>` operator outside every expression-or-type position and prints `>` in front of `(`
+        if key.startswith(("tree-differs", "rejected-by-parser")) and " lt-gt-paren" in marks:
+            family = True
+        # … or, whatever the shrinker made of it (its budget can end on a tree that still has template arguments of its
+        # own with relational operators inside): the re-read tree has MORE calls with template arguments than the original -
+        # a template call was invented.  (A formatter that prints a template argument bare - seeded C09-6 and its siblings -
+        # loses or keeps template calls, it never gains one.)
+        tcall = re.compile(r"\(\((?:E|B|T) \(")
+        if key.startswith("tree-differs") and " ==> " in (obs or ""):
+            if len(tcall.findall(obs.split(" ==> ", 1)[1])) > len(tcall.findall(req)):
+                family = True
+        if family:
+            # two or more entries of an argument list, an earlier one with a bare `<`, a later one with a bare `> (`
+            key = known_lt_gt_list if key.startswith("tree-differs[list-length]") else known_lt_gt
         return key
     m = re.match(r"FAIL:panic ([^:]+):\d+: (.*)$", detail or "")
     if m:
@@ -41,7 +69,7 @@ def harness_args(tier, seed):
 SPEC = {
     "id": "C09",
     "gens": ["FmtTables", "ParseTables", "SyntaxTables", "LexTables", "LitFormatTables"],
-    "lean_modules": ["RsslVerif.Thm.C09", "RsslVerif.Thm.C10", "RsslVerif.Lemmas.LiteralText"],
+    "lean_modules": ["RsslVerif.Thm.C09", "RsslVerif.Thm.C10", "RsslVerif.Lemmas.LiteralText", "RsslVerif.Lemmas.TArgClosed"],
     "level_note": "roundtrip_xexpr_partial / roundtrip_stmt_partial / roundtrip_decl_partial / roundtrip_function_partial / "
                   "roundtrip_struct_partial: WF / WFS / WFVarDef / WFFn / WFStruct are decidable syntactic carve-outs "
                   "(notes/C09.md; after fix batch 2 they no longer exclude operators in template / sizeof arguments nor comma "
@@ -60,6 +88,9 @@ SPEC = {
         "eot_parenthesised_admissible", "eot_parenthesises_from_shift",
         "sizeof_shift_roundtrips", "template_arg_shift_roundtrips", "template_arg_comma_roundtrips", "template_arg_less_roundtrips",
         "former_witnesses_wf", "less_greater_paren_regroups",
+        # a printed template argument / sizeof operand is closed under the bracket scanner (seeded mutant C09-6)
+        "template_argument_closed", "template_argument_list_closed", "template_argument_brackets_match",
+        "eot_threshold_closes", "bare_conditional_not_closed",
         # statements and local variable definitions (Model/FormatStmt + Model/ParseStmt)
         "roundtrip_stmt_partial", "roundtrip_block_partial", "roundtrip_decl_partial", "dangling_else_regroups",
         "attribute_comma_roundtrips", "for_init_pointer_reads_as_expr",
@@ -107,6 +138,13 @@ SPEC = {
                   "object of a member access (member_of_int_literal_roundtrips), struct base types (struct_base_types_roundtrip), and a "
                   "negative literal is parenthesised exactly like the unary minus of its magnitude (negative_literal_binds_like_minus; "
                   "paren_rule_matches_grammar quantifies over negative literals as productions of the prefix level). "
+                  "template_argument_closed / template_argument_list_closed: for every expression-or-type tree (all node kinds, any "
+                  "depth, types with nested lists and declarators) the printed tokens are invisible to a bracket scanner in every "
+                  "state - no >, >=, >>, >>= or comma outside brackets, every < outside parentheses closed inside the entry - so the "
+                  "angle brackets of a template argument list stay matched (template_argument_brackets_match); proved by mutual "
+                  "induction from the generated (eotExprPrec, eotExprSide) alone (eot_threshold_closes: the conditional, the comma, "
+                  "the assignments, the relational and the shift operators are parenthesised there), with the witness that a "
+                  "conditional with > printed bare is not closed (bare_conditional_not_closed - what seeded mutant C09-6 prints). "
                   "Table-level obligations (precedence <-> level, "
                   "associativity, spelling <-> tokens, operator glue, modifier spelling <-> keyword <-> parser arm) are decided over "
                   "the regenerated tables, and 63 hand-modelled functions are fingerprinted. The text of non-negative integer literals of every suffix is "
@@ -121,7 +159,13 @@ SPEC = {
             "+ parse, locations stripped, ambiguous parse branches / ambiguous statements resolved with the type names of the "
             "original tree; oracle = same tree and identical second print. Streams: exhaustive depth<=3 over 3 leaves x 6 unary x "
             "12 binary operators + ternary/subscript/member/call; random depth 2-6 over all operators in 5 contexts; random with "
-            "exporter-only shapes; casts / sizeof / template calls over types with all modifiers, nested template arguments and "
+            "exporter-only shapes; template-args: every node kind over every node kind (all 30 binary operators, conditionals "
+            "in each operand position, casts, sizeof, nested template calls; depth 4 under assignment / comma / conditional / "
+            "minus / cast) in nine expression-or-type positions (call and type-name template argument alone / first / after a "
+            "type, sizeof operand, argument of a type that is itself an argument, array size of an abstract declarator) plus "
+            "random depth 3-6 trees weighted towards ?: < > >= >> >>= <= << , = in those positions; lt-gt-lists: argument lists / comma "
+            "expressions with a bare < (<=, <<) in an earlier and a bare > (>=, >>) in a later entry, right operand parenthesised or not "
+            "(the known misreading, deliberately); source modules also write expression template arguments of every form; casts / sizeof / template calls over types with all modifiers, nested template arguments and "
             "declarators; literals of every kind over the whole value range; statement trees and function / struct definition trees of random programs; random source "
             "modules (statements, declarators, functions with attributes / templates / semantics / defaults, structs with "
             "methods and base types, enums, cbuffers, namespaces, resource globals). non-trivial = at least two operator nodes",
@@ -133,6 +177,8 @@ SPEC = {
         "format_struct prints base types, TypeModifier variants and Debug spellings, lexer "
         "keyword table, parse_type_modifiers_before/after arms, cast / sizeof / call arms and alternative orders (shape "
         "checks), sha256 fingerprints of 63 hand-modelled functions) - re-run on /repo's working tree every time",
+        "Lemmas/TArgClosed.lean `scan` / `cls`: the definition of `closed` (bracket scanner over the model's tokens) that "
+        "template_argument_closed is stated with",
         "hand-written Model/Format.lean, Model/Parse.lean (first model), Model/FormatFull.lean, Model/ParseFull.lean (casts, "
         "sizeof, template arguments, types, declarators), Model/FormatStmt.lean, Model/ParseStmt.lean (statements, local "
         "definitions), Model/FormatDef.lean, Model/ParseDef.lean (functions, parameters, structs) - tied to the code by the fingerprints and the correspondence run",
@@ -150,6 +196,14 @@ SPEC = {
         "white space of statements is compared collapsed; BracedInit, attributes on declarators, location annotations of "
         "locals, StaticSampler, template parameter lists, const / volatile methods and register / packoffset annotations "
         "are answered `unsupported` by the model and judged by the oracle only",
+        "the known template misreading `a < b ... > (c)` (finding 2, parser) is recognised on the MINIMAL failing tree: it has a `<` "
+        "and a `>` operator outside every expression-or-type position and either reads back with invented template arguments or "
+        "prints a lone `>` directly before `(`; two class keys (operand form, and the comma-list form `f(a < b, c > (d))` whose "
+        "argument count changes); a bare relational operator inside a template argument is never put into this class",
+        "random trees of the template-args stream are redrawn when their printed text has a reading cost (deepest nesting of `(` / `[` + half the number of `<`) above 7: the real "
+        "parser (and the model) re-read the inside of every `(` and `name <` twice, minutes per tree at a dozen levels; the "
+        "systematic catalogue is not bounded; in addition each random tree is emitted only if a trial print + parse on a helper "
+        "thread finished within 1.5 s (count of dropped trees in the template-args-budget STAT line)",
         "an expression-or-type position is compared on what syntax can tell: `Either(expr, type)` equals `Expression(expr)` "
         "(`T<(n[b])>` prints `T<n[b]>`, which reads back as Either; neither form is accepted by the type checker)",
     ],
